@@ -53,7 +53,7 @@ def drive_and_validate(ctx, prop, insts, describe=None, extra=None):
         ("resid", lambda l: dict(l, resid_milli=4000)),
         ("coef", lambda l: dict(l, terms=[dict(l["terms"][0], coef=[3, 1])] + l["terms"][1:])),
         ("relation", lambda l: dict(l, rel="FONLLParts" if l["rel"] != "FONLLParts" else "PositronFlip")),
-        ("keys", lambda l: dict(l, keyset_ok=False))])
+        ("keys", lambda l: dict(l, keyset_ok=False)), ("finite", lambda l: dict(l, finite=False))])
     for oid, clause in bad.items():
         i, ln = byoid[oid]
         pt = i["pt"]
